@@ -128,6 +128,7 @@ Definition map_un_n (n : nat) (kk ek : kind) (jv : json) : res (option fval) :=
   match jv with
   | JNull => ROk None
   | JObj kv =>
+      if kind_eqb kk KBool then RErr (s "json: cannot unmarshal object into Go value of type map[bool]") else
       rall (map (fun e => key_of_text kk (fst e) >>= (fun key => gj_un E sc n ek (snd e) >>= (fun o =>
               match o with Some v => ROk (key, v) | None => RUnm (s "null map value") end))) kv)
       >>= (fun es => ROk (Some (FMap (sort_entries es))))
